@@ -28,7 +28,13 @@ def summary : T → Option Kind × List Nat
   | .suite k cs => (some k, ascending (iterateL cs))
 
 /- top-level items expected in the result: plain suites unpacked, other suites whole, each with the
-key it is placed by (its first test) -/
+key it is placed by (its first test).
+
+READING (audit/C19 V2).  "Custom suites kept whole and placed by their first test": the first test the suite yields when
+`sorted_tests` reaches it, i.e. BEFORE the suite's own `sort_tests` has run (the code takes the id, then calls `sort_tests`).  A
+suite with `sort_tests` whose tests were not in order is therefore placed by a test that is no longer its first one in the result,
+and `sorted_tests` is not idempotent on such trees (sorting the result again may move the suite).  Taking the id after sorting
+would be the other reading; the seeded change C19-a is exactly that swap and is reported as a violation of this reading. -/
 mutual
 def tops : T → List (Option Nat × (Option Kind × List Nat))
   | .case id => [(some id, (none, [id]))]
@@ -68,10 +74,17 @@ def cList (i : Input) (t : Trace) : Bool := t.listed == iterate i.tree
 def cLoad (i : Input) (t : Trace) : Bool :=
   t.loaded == (iterate i.tree).filter (fun x => i.ids.contains x)
 
+/-- what `sorted_tests` returns can be filtered: exactly the chosen ids remain, in the sorted order -/
+def cSortThenFilter (i : Input) (t : Trace) : Bool :=
+  match t.sorted, t.sortFilt with
+  | none, none => true
+  | some r, some ids => ids == (iterate r).filter (fun x => i.ids.contains x)
+  | _, _ => false
+
 def clauses : List (String × (Input → Trace → Bool)) :=
   [("iterate", cIter), ("filter-ids", cFilterIds), ("filter-shape", cFilterShape),
    ("sorted-dup", cSortedDup), ("sorted-items", cSortedItems), ("sorted-perm", cSortedPerm),
-   ("list", cList), ("load-list", cLoad)]
+   ("list", cList), ("load-list", cLoad), ("sort-then-filter", cSortThenFilter)]
 
 def holds (i : Input) (t : Trace) : Bool := clauses.all fun c => c.2 i t
 
